@@ -226,6 +226,8 @@ func (s Stack) coq() string {
 				t = "(SFmt FNoop " + t + ")"
 			case "b64det", "edvdet":
 				t = "(SFmt FB64 " + t + ")"
+			case "edvrand":
+				t = "(SFmtE " + t + ")" // embeds the key in the formatted value
 			default:
 				t = "(SFmtR FB64 " + t + ")"
 			}
